@@ -1088,7 +1088,7 @@ def noise_variances(
     """
     mu, mu_ASE = average_voltages(P_avg, modulation, M, ER, amplify, wavelength, G, NF, BW_opt, r, R_L)
 
-    l = BW_el/BW_opt
+    l = BW_el/BW_opt if amplify else 1
     nf_el = idb(NF_el)
 
     S_sig_ase_i = 2 * mu_ASE * (mu-mu_ASE) * l  # signal-ase beating noise variance, in [V^2]
